@@ -72,15 +72,41 @@ def check_o1(ctx) -> None:
     ints = sorted(reg.enums.int_value('WellDrillingCostCorrelation', n) for n in rows)
     if isinstance(rng, list):
         ctx.check(sorted(rng) == ints, 'O1', 'Economics.wellcorrelation/AllowableRange=rows', d.where, f'allowable options {sorted(rng)} vs correlation rows {ints}')
-    # O5 adjustment factor multiplies the cost; SIMPLE arm = cost per metre x depth
-    st = [s for s in f.node.body if isinstance(s, ast.Assign) and norm(s.targets[0]) == 'cost_of_one_well' and 'well_cost_adjustment_factor' in norm(s.value)]
-    ok = len(st) == 1 and Translator().tr(st[0].value).equals(Rat.atom('well_cost_adjustment_factor') * Rat.atom('cost_of_one_well'))
-    ctx.check(ok, 'O5', 'calculate_cost_of_one_vertical_well/adjustment-factor-multiplies', f'{f.module.rel}:{st[0].lineno if st else f.node.lineno}',
-              'the well cost is not the correlation cost times the (non-negative) adjustment factor')
-    simple = [s for s in ast.walk(f.node) if isinstance(s, ast.Assign) and norm(s.targets[0]) == 'cost_of_one_well' and 'vertical_drilling_cost_per_m' in norm(s.value)]
-    ok = len(simple) == 1 and Translator().tr(simple[0].value).equals(Rat.atom('vertical_drilling_cost_per_m') * Rat.atom('depth_m') / Rat.const(10 ** 6))
-    ctx.check(ok, 'O5', 'calculate_cost_of_one_vertical_well/simple=rate*depth', f'{f.module.rel}:{simple[0].lineno if simple else f.node.lineno}',
-              'per-metre cost arm is not rate x depth x 1e-6')
+    # O5 on every return path: the value is the adjustment factor times (correlation cost | cost per metre x depth x 1e-6)
+    from gxstat.symflow import PathEnumerator
+    ret_names = {x.id for r_ in ast.walk(f.node) if isinstance(r_, ast.Return) and r_.value is not None for x in ast.walk(r_.value) if isinstance(x, ast.Name)}
+    paths = [p_ for p_ in PathEnumerator(f.node.body, ret_names).paths() if p_.ended == 'return' and p_.ret is not None]
+    ctx.require(paths, 'calculate_cost_of_one_vertical_well: no return path found')
+
+    def hook(T, call):
+        if isinstance(call.func, ast.Attribute) and call.func.attr == 'calculate_cost_MUSD' and [norm(a_) for a_ in call.args] == ['depth_m']:
+            return Rat.atom('CORRELATION_COST')
+        return None
+    F = Rat.atom('well_cost_adjustment_factor')
+    arms = {}
+    for p_ in paths:
+        try:
+            r = Translator(binds=p_.ret.binds, call_hook=hook).tr(p_.ret.expr)
+        except Unsupported as e:
+            raise AnalysisError(f'calculate_cost_of_one_vertical_well: {e}')
+        where = f'{f.module.rel}:{p_.ret.line}'
+        if r.equals(F * Rat.atom('CORRELATION_COST')):
+            arms.setdefault('correlation', where)
+        elif r.equals(F * Rat.atom('vertical_drilling_cost_per_m') * Rat.atom('depth_m') / Rat.const(10 ** 6)):
+            arms.setdefault('simple', where)
+        elif 'CORRELATION_COST' in r.n.atoms() | r.d.atoms() or 'vertical_drilling_cost_per_m' not in r.n.atoms():
+            ctx.bad('O5', 'calculate_cost_of_one_vertical_well/adjustment-factor-multiplies', where,
+                    f'the well cost is `{r.show()}`, not the correlation cost times the (non-negative) adjustment factor')
+            arms.setdefault('correlation', where)
+        else:
+            ctx.bad('O5', 'calculate_cost_of_one_vertical_well/simple=rate*depth', where,
+                    f'per-metre cost arm is `{r.show()}`, not adjustment factor x rate x depth x 1e-6')
+            arms.setdefault('simple', where)
+    ctx.require(set(arms) == {'correlation', 'simple'}, f'calculate_cost_of_one_vertical_well: expected a correlation arm and a per-metre arm, found {sorted(arms)}')
+    if not any(o['rule'] == 'O5' and o['status'] != 'ok' and 'adjustment-factor' in o['key'] for o in ctx.obligations):
+        ctx.ok('O5', 'calculate_cost_of_one_vertical_well/adjustment-factor-multiplies', arms['correlation'], 'factor x correlation cost on every correlation path')
+    if not any(o['rule'] == 'O5' and o['status'] != 'ok' and 'simple=rate' in o['key'] for o in ctx.obligations):
+        ctx.ok('O5', 'calculate_cost_of_one_vertical_well/simple=rate*depth', arms['simple'], 'factor x rate x depth x 1e-6')
 
 
 def check_o2(ctx) -> None:
